@@ -26,7 +26,8 @@ struct MemStore {
 };
 class MemSource : public cctz::ZoneInfoSource {
  public:
-  explicit MemSource(std::string b) : b_(std::move(b)) {}
+  explicit MemSource(std::string b, std::string version = std::string()) : b_(std::move(b)), version_(std::move(version)) {}
+  std::string Version() const override { return version_; }
   std::size_t Read(void* ptr, std::size_t size) override {
     size = std::min(size, b_.size() - pos_);
     memcpy(ptr, b_.data() + pos_, size);
@@ -38,8 +39,15 @@ class MemSource : public cctz::ZoneInfoSource {
     return 0;
   }
  private:
-  std::string b_; size_t pos_ = 0;
+  std::string b_; size_t pos_ = 0; std::string version_;
 };
+// a name may carry the data version its source reports: ".../ver=2024a/..."
+inline std::string version_in_name(const std::string& name) {
+  const size_t p = name.find("/ver=");
+  if (p == std::string::npos) return std::string();
+  const size_t e = name.find('/', p + 5);
+  return name.substr(p + 5, e == std::string::npos ? std::string::npos : e - p - 5);
+}
 inline std::unique_ptr<cctz::ZoneInfoSource> mem_factory(
     const std::string& name,
     const std::function<std::unique_ptr<cctz::ZoneInfoSource>(const std::string&)>& fallback) {
@@ -52,7 +60,7 @@ inline std::unique_ptr<cctz::ZoneInfoSource> mem_factory(
     std::lock_guard<std::mutex> l(s.mu);
     auto it = s.data.find(name);
     if (it == s.data.end()) return nullptr;
-    return std::unique_ptr<cctz::ZoneInfoSource>(new MemSource(it->second));
+    return std::unique_ptr<cctz::ZoneInfoSource>(new MemSource(it->second, version_in_name(name)));
   }
   return fallback(name);
 }
